@@ -40,7 +40,8 @@ CONSTANTS Kind,         \* "zip" (ZipResolver) or "file" (FilePathResolver)
           Names,        \* names offered to write / get (sequences of components)
           NSs,          \* namespaces offered to namespaced() (single components)
           Toks,         \* payload tokens offered to write
-          WForms,       \* forms a payload is handed to write in: "b" bytes, "s" str, "io" file object at position 0
+          WForms,       \* forms a payload is handed to write in: "b" bytes, "s" str, "io" file object at position 0,
+                        \* "kb" bytes with the call spelled write(name=..., data=...) as in Resolver.write / export_mesh
           LoadRefs,     \* names an OBJ may give in its mtllib line ({} = no Load action)
           MaxV,         \* resolver objects alive in one behaviour
           MaxPre,       \* maximal nesting of namespaces
@@ -65,10 +66,11 @@ VARIABLES nview,    \* slots 1..nview are live resolver objects (1 = the root)
           hist      \* emission / replay only
 
 vars == <<nview, iview, istore, nfam, aview, aheap, naid, dirs, kcache, last, fired, hist>>
-View == <<nview, iview, istore, nfam, aview, aheap, naid, dirs, kcache, last>>
+\* the length of the history stays in the view: the depth bound is then exact and the search deterministic
+View == <<nview, iview, istore, nfam, aview, aheap, naid, dirs, kcache, last, Len(hist)>>
 
 AllDev == {"ZipWriteIgnoresNamespace", "ZipGetPrefersRawKey", "ZipNestedNamespaceReplaces",
-           "ZipNoneArchiveUnshared", "ZipExportConsumesStreams",
+           "ZipNoneArchiveUnshared", "ZipExportConsumesStreams", "ZipWriteKeywordNames",
            "FileKeysLeadingSeparator", "FileNamespacedMissingDirIsParent"}
 AllMut == {"", "StaleKeys", "GetCreates", "CaseFold", "ExportDropsDirs", "WriteThroughCopy"}
 ASSUME Dev \subseteq AllDev /\ Mut \in AllMut /\ Kind \in {"zip", "file"}
@@ -81,8 +83,8 @@ MaxA == 2 * MaxV
 IsMtl(t) == t \in {1, 2}
 IsPng(t) == t >= 3
 TexRef(t) == IF t = 1 THEN <<"t", "b.bin">> ELSE <<".", "a.bin">>
-FormOK(t, f) == /\ (f = "s" => IsMtl(t))                 \* only texts can be handed over as str
-                /\ (Kind = "file" => f \in {"b", "s"})   \* FilePathResolver.write takes str or bytes
+FormOK(t, f) == /\ (f = "s" => IsMtl(t))                       \* only texts can be handed over as str
+                /\ (Kind = "file" => f \in {"b", "s", "kb"})   \* FilePathResolver.write takes str or bytes
 
 \* ---------------------------------------------------------------------- keys
 HasPre(k, p) == Len(k) >= Len(p) /\ SubSeq(k, 1, Len(p)) = p
@@ -159,6 +161,15 @@ AKeysNow(v) == IF Kind = "zip" THEN KeysUnder(AS(v), ANs(v))
                \* os.walk: path[len(parent):] keeps the separator in front of sub-directories
                ELSE {LeadSep(r) : r \in KeysUnder(AS(v), ANs(v))}
 ALoad(v, m) == LoadVia(LAMBDA x : Short(AGet(v, x)), m)
+\* the raw-name lookup of a namespaced ZipResolver decided the answer of get(n)
+RawFires(v, n) == /\ Kind = "zip" /\ D("ZipGetPrefersRawKey") /\ ANs(v) # <<>> /\ AAid(v) # 0
+                  /\ Short(AGetIn(AS(v), ZipNearby(ANs(v), n))) # Short(AGet(v, n))
+\* deviations that act inside a read of n through v (they change no state)
+ReadFires(v, n) == (IF AAid(v) = 0 THEN {"ZipNoneArchiveUnshared"} ELSE {})
+                   \cup (IF RawFires(v, n) THEN {"ZipGetPrefersRawKey"} ELSE {})
+KeysFires(v) == (IF AAid(v) = 0 THEN {"ZipNoneArchiveUnshared"} ELSE {})
+                \cup (IF Kind = "file" /\ D("FileKeysLeadingSeparator") /\ AAid(v) # 0 /\ \E r \in AKeysNow(v) : r[1] = ""
+                      THEN {"FileKeysLeadingSeparator"} ELSE {})
 
 \* ------------------------------------------------------------ bookkeeping
 Fire(S) == fired' = fired \o SetToSeq({d \in S : ~\E i \in 1..Len(fired) : fired[i] = d})
@@ -203,10 +214,12 @@ Write(v, n, t, f) ==
            \* ZipResolver.write: self.archive[key] = value  (the namespace is not consulted)
            akey  == AK(IF zip THEN (IF D("ZipWriteIgnoresNamespace") THEN n ELSE ANs(v) \o n)
                        ELSE Canon(ANs(v) \o n))
-           aexc  == ~zip /\ DirOf(akey) # <<>> /\ DirOf(akey) \notin dirs
-           ff    == IF f = "io" THEN "io0" ELSE IF zip THEN f ELSE "b"
+           \* ZipResolver.write(self, key, value): the parameter names of the interface are not accepted
+           kwbad == zip /\ f = "kb" /\ D("ZipWriteKeywordNames")
+           aexc  == kwbad \/ (~zip /\ DirOf(akey) # <<>> /\ DirOf(akey) \notin dirs)
+           ff    == IF f = "io" THEN "io0" ELSE IF zip /\ f = "s" THEN "s" ELSE "b"
            \* `if self.archive is None: self.archive = {}`: a private dict nobody else points to
-           fresh == AAid(v) = 0
+           fresh == AAid(v) = 0 /\ ~aexc
            aid1  == IF fresh THEN naid + 1 ELSE AAid(v)
            av1   == IF fresh THEN [aview EXCEPT ![v].aid = aid1] ELSE aview
            ah1   == IF aexc THEN aheap ELSE [aheap EXCEPT ![aid1] = Put(@, [k |-> akey, t |-> t, f |-> ff])]
@@ -214,8 +227,9 @@ Write(v, n, t, f) ==
        IN /\ istore' = is1 /\ aview' = av1 /\ aheap' = ah1 /\ naid' = na1
           /\ last' = [op |-> "write", v |-> v, w |-> 0,
                       ires |-> [exc |-> iexc, val |-> 0], ares |-> [exc |-> aexc, val |-> 0]]
-          /\ Fire((IF zip /\ D("ZipWriteIgnoresNamespace") /\ ANs(v) # <<>> THEN {"ZipWriteIgnoresNamespace"} ELSE {})
-                  \cup (IF fresh THEN {"ZipNoneArchiveUnshared"} ELSE {}))
+          /\ Fire((IF zip /\ ~kwbad /\ D("ZipWriteIgnoresNamespace") /\ ANs(v) # <<>> THEN {"ZipWriteIgnoresNamespace"} ELSE {})
+                  \cup (IF fresh THEN {"ZipNoneArchiveUnshared"} ELSE {})
+                  \cup (IF kwbad THEN {"ZipWriteKeywordNames"} ELSE {}))
           /\ Log([op |-> "write", v |-> v, n |-> n, t |-> t, f |-> f, ifam |-> fam, ikey |-> ikey,
                   exp |-> [exc |-> iexc, val |-> 0], asb |-> [exc |-> aexc, val |-> 0]],
                  iview, is1, nview, nfam, av1, ah1, na1, dirs)
@@ -231,12 +245,9 @@ Get(v, n) ==
                THEN (IF M("GetCreates") THEN [aheap EXCEPT ![aid] = Put(@, [k |-> AOpts(v, n)[1], t |-> 0, f |-> "b"])]
                      ELSE aheap)
                ELSE [aheap EXCEPT ![aid] = Rewind(@, {ar.key})]
-        raw == Kind = "zip" /\ D("ZipGetPrefersRawKey") /\ ANs(v) # <<>> /\ aid # 0
-               /\ Short(AGetIn(AS(v), ZipNearby(ANs(v), n))) # Short(ar)
     IN /\ aheap' = ah1
        /\ last' = [op |-> "get", v |-> v, w |-> 0, ires |-> ir, ares |-> Short(ar)]
-       /\ Fire((IF aid = 0 THEN {"ZipNoneArchiveUnshared"} ELSE {})
-               \cup (IF raw THEN {"ZipGetPrefersRawKey"} ELSE {}))
+       /\ Fire(ReadFires(v, n))
        /\ Log([op |-> "get", v |-> v, n |-> n, exp |-> ir, asb |-> [exc |-> ar.exc, val |-> ar.val, form |-> ar.form]],
               iview, istore, nview, nfam, aview, ah1, naid, dirs)
        /\ UNCHANGED <<nview, iview, istore, nfam, aview, naid, dirs, kcache>>
@@ -319,7 +330,7 @@ Load(v, m) ==
     IN /\ ~ir.any /\ ~ar.any
        /\ aheap' = ah1
        /\ last' = [op |-> "load", v |-> v, w |-> 0, ires |-> ir, ares |-> ar]
-       /\ Fire(IF AAid(v) = 0 THEN {"ZipNoneArchiveUnshared"} ELSE {})
+       /\ Fire(ReadFires(v, m) \cup (IF ~g1.exc /\ IsMtl(g1.val) THEN ReadFires(v, TexRef(g1.val)) ELSE {}))
        /\ Log([op |-> "load", v |-> v, n |-> m, exp |-> ir, asb |-> ar],
               iview, istore, nview, nfam, aview, ah1, naid, dirs)
        /\ UNCHANGED <<nview, iview, istore, nfam, aview, naid, dirs, kcache>>
@@ -384,10 +395,11 @@ IdealLastWritten ==
     /\ \A v \in Live, n \in Names : Has(IStore(v), IKey(v, n)) => IGet(v, n) = [exc |-> FALSE, val |-> At(IStore(v), IKey(v, n)).t]
 
 \* ----------------------------------------------------------------- emission
-SweepGets == SetToSeq({[v |-> v, n |-> n, exp |-> IGet(v, n),
+Also(S) == fired \o SetToSeq({d \in S : ~\E i \in 1..Len(fired) : fired[i] = d})
+SweepGets == SetToSeq({[v |-> v, n |-> n, exp |-> IGet(v, n), fired |-> Also(ReadFires(v, n)),
                         asb |-> LET r == AGet(v, n) IN [exc |-> r.exc, val |-> r.val, form |-> r.form]] :
                        v \in Live, n \in Names})
-SweepKeys == [v \in Live |-> [exp |-> [exc |-> FALSE, val |-> SetToSeq(IKeys(v))],
+SweepKeys == [v \in Live |-> [exp |-> [exc |-> FALSE, val |-> SetToSeq(IKeys(v))], fired |-> Also(KeysFires(v)),
                               asb |-> [exc |-> AAid(v) = 0, val |-> IF AAid(v) = 0 THEN <<>> ELSE SetToSeq(AKeysNow(v))]]]
 Beh == [kind |-> Kind, none |-> NoneArchive, dirs0 |-> SetToSeq(Dirs0), h |-> hist,
         fired |-> fired, gets |-> SweepGets, keys |-> SweepKeys]
@@ -400,6 +412,7 @@ Names4   == {<<"a.bin">>, <<".", "a.bin">>, <<"t", "b.bin">>, <<"b.bin">>}
 Names3   == {<<"A.bin">>, <<"t", "b.bin">>, <<"b.bin">>}
 Names2   == {<<"t", "b.bin">>, <<"b.bin">>}
 NamesCase == {<<"a.bin">>, <<"A.bin">>}
+NamesCD  == {<<"a.bin">>, <<"A.bin">>, <<".", "a.bin">>}
 NamesDot == {<<"a.bin">>, <<".", "a.bin">>}
 Refs2    == {<<"a.bin">>, <<"b.bin">>}
 Refs1    == {<<"a.bin">>}
